@@ -183,3 +183,18 @@ Definition e_P08 (v : uval) : uval :=
 Definition e_P06 (v : uval) : uval :=
   vbool (P06 (gettriple (arg 0 v)) (getZ (arg 1 v)) (map (fun o => map getpout (getL o)) (getL (arg 2 v)))
              (gettriple (arg 3 v))).
+
+(* ---- C18 ---- *)
+From PV Require Import Spec.C18.
+Definition getbools (v : uval) : list bool := map getbool (getL v).
+Definition vbools (l : list bool) : uval := VL (map vbool l).
+(* [day; st; sh; sm; eh; em] *)
+Definition e_set_state (v : uval) : uval :=
+  vopt vbools (set_state (getbools (arg 0 v)) (getN (arg 1 v)) (getN (arg 2 v)) (getN (arg 3 v)) (getN (arg 4 v)) (getN (arg 5 v))).
+(* [day; st; sh; sm; eh; em; observed result (option day)] *)
+Definition e_P18_edit (v : uval) : uval :=
+  vbool (P18_edit (getbools (arg 0 v)) (getN (arg 1 v)) (getN (arg 2 v)) (getN (arg 3 v)) (getN (arg 4 v)) (getN (arg 5 v))
+                  (getopt getbools (arg 6 v))).
+Definition e_encode_bitmap (v : uval) : uval := vbytes (encode_bitmap (map getbools (getL v))).
+Definition e_decode_bitmap (v : uval) : uval := vlist vbools (decode_bitmap (getbytes v)).
+Definition e_spec_bitmap (v : uval) : uval := vbytes (spec_bitmap (map getbools (getL v))).
